@@ -145,13 +145,14 @@ EvalModel(m, feed) == LET e == EvalSeq(m.nodes, 1, InitEnv(m.inits) @@ FeedEnv(m
 
 -----------------------------------------------------------------------------
 (* worlds: input signature + three probe feeds each *)
-AllWorlds == {"vec", "sym", "mat", "anon", "r3"}
+AllWorlds == {"vec", "sym", "mat", "anon", "r3", "zero"}
 WIns(w) ==
    CASE w = "vec" -> <<InR("x", "in", "f32", <<3>>, ERR), InR("b", "in", "bool", <<>>, ERR)>>
      [] w = "sym" -> <<InR("x", "in", "f32", <<SymN>>, ERR), InR("b", "in", "bool", <<>>, ERR)>>
      [] w = "mat" -> <<InR("x", "in", "f32", <<2, 3>>, ERR)>>
      [] w = "anon" -> <<InR("x", "in", "f32", <<UNK, UNK>>, ERR), InR("y", "in", "f32", <<UNK, UNK>>, ERR)>>
      [] w = "r3" -> <<InR("x", "in", "f32", <<2, 1, 3>>, ERR)>>
+     [] w = "zero" -> <<InR("x", "in", "f32", <<2, 0>>, ERR), InR("y", "in", "f32", <<3, 0>>, ERR)>>      \* empty because of the SECOND axis
 Fd1(x) == [nm \in {"x"} |-> x]
 Fd2(x, n2, v2) == [nm \in {"x", n2} |-> IF nm = "x" THEN x ELSE v2]
 WFeeds(w) ==
@@ -161,6 +162,7 @@ WFeeds(w) ==
      [] w = "anon" -> <<Fd2(T("f32", <<1, 3>>, <<0, 1, -1>>), "y", T("f32", <<3, 1>>, <<2, -2, 0>>)),
                         Fd2(T("f32", <<1, 2>>, <<-3, 5>>), "y", T("f32", <<2, 1>>, <<1, -1>>)),
                         Fd2(T("f32", <<1, 1>>, <<7>>), "y", T("f32", <<1, 1>>, <<-7>>))>>
+     [] w = "zero" -> LET fd == Fd2(T("f32", <<2, 0>>, <<>>), "y", T("f32", <<3, 0>>, <<>>)) IN <<fd, fd, fd>>
      [] w = "r3" -> <<Fd1(T("f32", <<2, 1, 3>>, <<0, 1, -1, 2, -2, 3>>)), Fd1(T("f32", <<2, 1, 3>>, <<-5, 0, 7, 1, 1, -1>>)), Fd1(T("f32", <<2, 1, 3>>, <<100, -100, 3, 0, 0, 0>>))>>
 NP == 3
 \* the override a caller may pass for an overridable initializer-input (probe 4 = probe 1 + overrides)
@@ -262,6 +264,11 @@ AddClip == /\ CanAdd
                         ch == IF e[2] = NONEB THEN NoC ELSE COp(e[3], dN, FS(e[2]))
                     IN TryAdd(cl.ins \o ch.ins, cl.inits \o ch.inits,
                               cl.nodes \o ch.nodes \o <<N1("Clip", IF e[2] = NONEB THEN <<a, cl.nm>> ELSE <<a, cl.nm, ch.nm>>, vN)>>)
+\* Concat of data tensors along an axis (operands may be empty because of ANOTHER axis: world "zero")
+AddConcatData == /\ CanAdd
+                 /\ \E a \in PrimF, b2 \in PickN(31, IF Rich THEN AvailF \cup ({"y"} \cap InNames(m0)) ELSE {"x", "y"} \cap InNames(m0)),
+                       ax \in PickN(32, IF Rich THEN {0, 1, -1} ELSE {0, 1}) :
+                       TryAdd(<<>>, <<>>, <<Nd("Concat", <<a, b2>>, <<vN>>, [NoAt EXCEPT !.axis = ax], <<>>)>>)
 \* shape computations: Shape, Size, Gather from a shape vector, Concat of shape vectors
 IdxVals0 == IF Rich THEN {IVec(<<0>>), IVec(<<-1>>), IVec(<<1, 0>>), Scalar("i64", 0)} ELSE {IVec(<<0>>), IVec(<<-1>>)}
 IdxVals == PickN(17, IdxVals0)
@@ -393,8 +400,14 @@ InferOut(n, TY(_), CVf(_)) ==
         [] n.op = "Size" -> R("i64", <<>>)
         [] n.op = "Gather" -> IF s1 = NOSHP \/ I(2).sh = NOSHP THEN R(I(1).dt, NOSHP) ELSE IF Len(s1) = 0 THEN <<>> ELSE R(I(1).dt, I(2).sh \o Tail(s1))
         [] n.op = "Concat" -> IF \E i \in 1..Len(n.ins) : I(i).sh = NOSHP THEN R(I(1).dt, NOSHP)
-                              ELSE IF \E i \in 1..Len(n.ins) : Len(I(i).sh) # 1 THEN <<>>
-                              ELSE R(I(1).dt, <<IF \A i \in 1..Len(n.ins) : I(i).sh[1] >= 0 THEN SeqSum([i \in 1..Len(n.ins) |-> I(i).sh[1]]) ELSE UNK>>)
+                              ELSE LET r == Len(s1)
+                                       ax == IF n.at.axis < 0 THEN n.at.axis + r ELSE n.at.axis
+                                       Dim(d) == IF d = ax + 1
+                                                 THEN (IF \A i \in 1..Len(n.ins) : I(i).sh[d] >= 0 THEN SeqSum([i \in 1..Len(n.ins) |-> I(i).sh[d]]) ELSE UNK)
+                                                 ELSE (IF \E i \in 1..Len(n.ins) : I(i).sh[d] >= 0
+                                                       THEN I(CHOOSE i \in 1..Len(n.ins) : I(i).sh[d] >= 0 /\ \A i2 \in 1..(i - 1) : I(i2).sh[d] < 0).sh[d] ELSE s1[d])
+                                   IN IF r = 0 \/ ax < 0 \/ ax >= r \/ \E i \in 1..Len(n.ins) : Len(I(i).sh) # r THEN <<>>
+                                      ELSE R(I(1).dt, [d \in 1..r |-> Dim(d)])
         [] n.op = "Reshape" -> LET c == CI(2) IN
                                IF ~IsErr(c) THEN R(I(1).dt, InferReshape(s1, c.data))
                                ELSE IF I(2).sh # NOSHP /\ Len(I(2).sh) = 1 /\ I(2).sh[1] >= 0 THEN R(I(1).dt, Unknowns(I(2).sh[1])) ELSE R(I(1).dt, NOSHP)
@@ -478,7 +491,10 @@ PE(n, S, TY(_), CVf(_), C) ==
         [] n.op = "Concat" ->
              IF Len(n.ins) = 1 THEN Hit(Ident(n.ins[1]), "PE_Concat_single", sym, {})
              ELSE LET ax == n.at.axis
-                      zero == {i \in 1..Len(n.ins) : LET s == TY(n.ins[i]).sh IN s # NOSHP /\ ax >= 0 /\ ax < Len(s) /\ s[ax + 1] = 0}
+                      \* has_zero_size: shape[axis] == 0 with Python indexing (negative axis counts from the end; IndexError -> False)
+                      zero == {i \in 1..Len(n.ins) : LET s == TY(n.ins[i]).sh
+                                                          ix == IF ax < 0 THEN ax + Len(s) ELSE ax
+                                                      IN s # NOSHP /\ ix >= 0 /\ ix < Len(s) /\ s[ix + 1] = 0}
                       keep == SelectSeq([i \in 1..Len(n.ins) |-> IF i \in zero THEN "" ELSE n.ins[i]], LAMBDA x : x # "")
                       svs == [i \in 1..Len(n.ins) |-> ShapeVal(n.ins[i], CVf, sym)]
                   IN IF ax = NOAX THEN Miss(sym)
@@ -881,7 +897,7 @@ Finish == /\ stage = "build" /\ Len(m0.main) >= 1
                    /\ st' = St0(m, "impl", ex[1])
                    /\ stage' = "fold"
                    /\ UNCHANGED <<wd, rnd>>
-Build == AddUnary \/ AddDropoutMask \/ AddCast \/ AddCastLike \/ AddTranspose \/ AddBinConst \/ AddBin \/ AddClip
+Build == AddConcatData \/ AddUnary \/ AddDropoutMask \/ AddCast \/ AddCastLike \/ AddTranspose \/ AddBinConst \/ AddBin \/ AddClip
          \/ AddShapeOp \/ AddReshape \/ AddExpand \/ AddUnsqueeze \/ AddIf
 
 Devs == IF st.mode = "impl" THEN Deviations ELSE {}
@@ -970,7 +986,8 @@ NeverDeviates == stage \in OptStages => st.used = {}
 NeverInlinesIf == stage \in OptStages => \A i \in 1..Len(st.log) : st.log[i] # "PE_If_inline:v5"
 NeverFolds == stage \in OptStages => \A i \in 1..Len(st.log) : st.log[i] # "FoldByReference:c4"
 NeverFuses == stage \in OptStages => \A i \in 1..Len(st.log) : st.log[i] # "Rule:TransposeTranspose:v3"
-QuickWorlds == {"vec", "sym", "mat", "anon", "r3"}
+QuickWorlds == {"vec", "sym", "mat", "anon", "r3", "zero"}
+ZeroWorld == {"zero"}
 AnonWorld == {"anon"}
 R3World == {"r3"}
 VecWorld == {"vec"}
